@@ -127,6 +127,7 @@ pub struct Obs {
     pub max_pending_gates: u32,
     pub cancel_with_live_tasks: bool,
     pub stale_wakes: u64,
+    pub ready_now: u64,
     /// threads still unfinished when the caller's closure returned (thread mode)
     pub unfinished_at_return: u32,
     pub log_hash: u64,
@@ -177,6 +178,7 @@ pub fn run_sim(prog: &Prog, kind: Kind, plan: &Plan, strat: Strat, seed: u64, re
                 max_pending_gates: 0,
                 cancel_with_live_tasks: false,
                 stale_wakes: 0,
+                ready_now: 0,
                 unfinished_at_return: tr.unfinished_at_return,
                 log_hash,
             }
@@ -215,6 +217,7 @@ pub fn run_sim(prog: &Prog, kind: Kind, plan: &Plan, strat: Strat, seed: u64, re
                 max_pending_gates: ar.max_pending_gates,
                 cancel_with_live_tasks: ar.cancel_with_live_tasks,
                 stale_wakes: ar.stale_wakes,
+                ready_now: ar.ready_now,
                 unfinished_at_return: 0,
                 log_hash,
             }
